@@ -18,7 +18,8 @@ RULE = ('Generated (Domain via dr|dk, length 1-64 [thorough 1-512]; value table 
         'length equal / shorter / longer). Oracle: matching -> calculate(k) returns the table bit-for-bit, in order, not sharing memory '
         'with the caller array and unaffected by later mutation of it; PRISM.omega = table * site density bit-for-bit. Mismatching -> '
         'calculate raises (array input, two-column file) or createPRISM / first cost raises (one-column file); never an omega from '
-        'mismatched data. Non-trivial = domain length >= 2 and values not constant; distinct = spec hash.')
+        'mismatched data. (export) PairTable.exportToMatrixArray exports tables of arrays verbatim iff all entries have the same length (one '
+        'entry of length 1, 2, n-1, n+1, n/2 or 2n must be refused). Non-trivial = domain length >= 2 and values not constant; distinct = spec hash.')
 ASSUMPTIONS = ['values and k are finite floats; files contain plain whitespace separated numbers without comments',
                'perturbations of the k column are never borderline: <= 0.5x or >= 2x the allclose tolerance of the point (<= 0.1x / >= 10x for the uniform variants)',
                'a grid whose point count differs from length (a Domain defect judged by C07) is counted and skipped']
@@ -252,4 +253,59 @@ class Tabulated(Sub):
         return out
 
 
-SUBS = [Tabulated()]
+class Export(Sub):
+    name = 'export'
+    doc = 'PairTable.exportToMatrixArray: tables of arrays are exported verbatim when all lengths agree and refused (ValueError) otherwise, incl. length-1 entries'
+    budget = {'quick': 300, 'thorough': 24000}
+
+    def strategy(self, tier):
+        return st.fixed_dictionaries({'rank': st.integers(1, 4), 'n': st.integers(2, 40), 'odd': st.one_of(st.none(), st.integers(0, 9)),
+                                      'odd_len': st.sampled_from([1, 1, 2, -1, +1, 'half', 'double']), 'seed': st.integers(0, 2 ** 31 - 1)})
+
+    def check(self, spec):
+        P = target()
+        out = Outcome()
+        sig = PID + '/export/'
+        names = ['solvent', 'polymer', 'filler', 'x'][:spec['rank']]
+        n = spec['n']
+        g = np.random.Generator(np.random.PCG64(spec['seed']))
+        pt = P.PairTable(names, 'omega')
+        pairs = [(a, b) for i, a in enumerate(names) for b in names[i:]]
+        odd = None if spec['odd'] is None else spec['odd'] % len(pairs)
+        ol = spec['odd_len']
+        bad_len = {'half': max(1, n // 2), 'double': 2 * n}.get(ol, n + ol if ol in (-1, 1) and isinstance(ol, int) and ol != 1 else ol)
+        if ol == 1:
+            bad_len = 1
+        elif ol == 2:
+            bad_len = 2
+        elif ol == -1:
+            bad_len = n - 1
+        vals = {}
+        for i, (a, b) in enumerate(pairs):
+            m = bad_len if i == odd else n
+            vals[a, b] = g.standard_normal(m)
+            pt[a, b] = vals[a, b]
+        mismatch = odd is not None and bad_len != n and len(pairs) > 1
+        out.nontrivial = len(pairs) > 1
+        out.label('mismatch-len=%s' % (ol,) if mismatch else 'all-equal', 'rank=%d' % spec['rank'])
+        try:
+            ma = pt.exportToMatrixArray(space=P.Space.Fourier)
+            raised = None
+        except ValueError as exc:
+            raised = exc
+        if mismatch and raised is None:
+            out.fail(sig + 'unequal-lengths-exported', 'exportToMatrixArray accepted a table in which one pair has %d values and the others %d' % (bad_len, n))
+        elif not mismatch:
+            if raised is not None:
+                out.fail(sig + 'equal-lengths-refused', 'exportToMatrixArray raised ValueError although every entry has %d values' % (n if odd is None or len(pairs) > 1 else bad_len))
+            else:
+                L = n if (odd is None or len(pairs) > 1) else bad_len
+                for (a, b), v in vals.items():
+                    i, j = names.index(a), names.index(b)
+                    if ma.data.shape[0] != L or ma.data[:, i, j].tobytes() != np.asarray(v, dtype=float).tobytes() or ma.data[:, j, i].tobytes() != np.asarray(v, dtype=float).tobytes():
+                        out.fail(sig + 'exported-values-differ', 'exported pair function (%s,%s) is not the table entry' % (a, b))
+                        break
+        return out
+
+
+SUBS = [Tabulated(), Export()]
